@@ -563,9 +563,6 @@ impl Engine for C19 {
                         out.push(Violation::new("T0", "semantic-mismatch", path, detail));
                     }
                 }
-                if polls != 1 {
-                    out.push(Violation::new("T0", "runaway", "polls", format!("zero-latency call took {polls} polls")));
-                }
                 got
             }
             Outcome::Err(e) => {
@@ -614,9 +611,10 @@ impl Engine for C19 {
                     if let Some(d) = diff_got(u, &base, &got) {
                         out.push(Violation::new("T1", "schedule-dependence", "result", d));
                     }
-                    if polls != s1.latency_total + 1 {
-                        // every Pending of a request must surface as exactly one Pending of the call
-                        out.push(Violation::new("T1", "schedule-dependence", "polls", format!("{polls} polls for a latency sum of {}", s1.latency_total)));
+                    // (how many polls the call took is bounded by the step budget only: a resolver that fetched
+                    // concurrently would need fewer than the latency sum, and that would be legal)
+                    if polls == s1.latency_total + 1 {
+                        st.probe("polls_equal_latency_sum_plus_one");
                     }
                 }
                 Outcome::Err(e) => out.push(Violation::new("T1", "schedule-dependence", "result.err", e)),
@@ -996,8 +994,9 @@ fn gen_scope(w: &mut Rng) -> Scope {
     }
 }
 
-fn other_version(u: &Universe, g: &str, a: &str, not: &str, w: &mut Rng) -> Option<String> {
-    let vs: Vec<&str> = u.arts.iter().filter(|x| x.group == g && x.artifact == a && x.version != not).map(|x| x.version.as_str()).collect();
+/// another version of group:artifact among the artifacts below layer `below`
+fn other_version(u: &Universe, below: usize, g: &str, a: &str, not: &str, w: &mut Rng) -> Option<String> {
+    let vs: Vec<&str> = u.arts[..below.min(u.arts.len())].iter().filter(|x| x.group == g && x.artifact == a && x.version != not).map(|x| x.version.as_str()).collect();
     if vs.is_empty() {
         None
     } else {
@@ -1015,7 +1014,7 @@ fn push_managed(list: &mut Vec<Managed>, m: Managed) -> bool {
 }
 
 pub fn gen_universe(w: &mut Rng) -> (Universe, u32) {
-    let n = *w.pick(&[1usize, 2, 3, 3, 4, 4, 5, 5, 6, 6, 7, 8, 9, 10, 12]);
+    let n = *w.pick(&[1usize, 2, 3, 4, 4, 5, 5, 6, 6, 7, 7, 8, 8, 9, 10, 11, 12, 12]);
     let n_ga = 1 + w.usize(n.min(5));
     let mut gas: Vec<(&str, &str)> = vec![];
     while gas.len() < n_ga {
@@ -1089,7 +1088,7 @@ pub fn gen_universe(w: &mut Rng) -> (Universe, u32) {
             let inherited: Vec<Managed> = ancestors.iter().flat_map(|j| u.arts[*j].managed.iter().cloned()).collect();
             if !inherited.is_empty() {
                 let e = w.pick(&inherited).clone();
-                let version = other_version(&u, &e.group, &e.artifact, &e.version, w).unwrap_or_else(|| e.version.clone());
+                let version = other_version(&u, i, &e.group, &e.artifact, &e.version, w).unwrap_or_else(|| e.version.clone());
                 let m = Managed { version, scope: if w.chance(40) { Some(gen_scope(w)) } else { e.scope }, ..e };
                 push_managed(&mut u.arts[i].managed, m);
             }
@@ -1097,7 +1096,7 @@ pub fn gen_universe(w: &mut Rng) -> (Universe, u32) {
         if i == 0 {
             continue;
         }
-        for _ in 0..*w.pick(&[0, 0, 1, 1, 2, 2, 3]) {
+        for _ in 0..*w.pick(&[0, 1, 1, 2, 2, 2, 3, 3]) {
             let mut t = w.usize(i);
             for _ in 0..3 {
                 if u.arts[t].is_pom_packaged() && w.chance(80) {
@@ -1139,19 +1138,27 @@ pub fn gen_universe(w: &mut Rng) -> (Universe, u32) {
             };
             if w.chance(40) {
                 // version omitted: management must supply it
-                let managed = u.mgmt(i, true, 0).map_or(false, |m| m.iter().any(|e| e.key == key));
-                if !managed {
-                    let at = place(&u, w);
-                    let m = entry(u.arts[t].version.clone(), w);
-                    if !push_managed(&mut u.arts[at].managed, m.clone()) {
-                        push_managed(&mut u.arts[i].managed, m);
+                let managed = u.mgmt(i, true, 0).ok().and_then(|m| m.iter().find(|e| e.key == key).map(|e| e.version.clone()));
+                match managed {
+                    None => {
+                        let at = place(&u, w);
+                        let m = entry(u.arts[t].version.clone(), w);
+                        if !push_managed(&mut u.arts[at].managed, m.clone()) {
+                            push_managed(&mut u.arts[i].managed, m);
+                        }
+                        d.version = None;
+                    }
+                    // already managed: omit the version only if the managed one names a lower layer
+                    Some(v) => {
+                        if u.find(&d.group, &d.artifact, &v).is_some_and(|x| x < i) {
+                            d.version = None;
+                        }
                     }
                 }
-                d.version = None;
             } else if w.chance(25) {
                 // explicit version next to a managed (possibly different) one: the explicit one stays
                 let at = place(&u, w);
-                let v = other_version(&u, &d.group, &d.artifact, d.version.as_deref().unwrap(), w).unwrap_or_else(|| u.arts[t].version.clone());
+                let v = other_version(&u, n, &d.group, &d.artifact, d.version.as_deref().unwrap(), w).unwrap_or_else(|| u.arts[t].version.clone());
                 let m = entry(v, w);
                 push_managed(&mut u.arts[at].managed, m);
             }
